@@ -549,6 +549,20 @@ class AbstractInterval(ABC):
             return {key: sorted(vals) for key, vals in self.qualifiers.items()}
 
 
+def sort_interval_lists(starts: List[int], ends: List[int], *parallel_lists: Optional[list]) -> tuple:
+    """Intervals handed to a constructor out of order are put in ascending order, and every list that runs parallel to
+    them (frames) is permuted alike. Lists that are already ordered, or whose lengths disagree (refused by the
+    constructor's own validation), are returned unchanged."""
+    n = len(starts)
+    lists = (starts, ends) + parallel_lists
+    if any(lst is not None and len(lst) != n for lst in lists):
+        return lists
+    if all(starts[i] <= starts[i + 1] for i in range(n - 1)):
+        return lists
+    order = sorted(range(n), key=lambda i: (starts[i], ends[i]))
+    return tuple(None if lst is None else [lst[i] for i in order] for lst in lists)
+
+
 class AbstractFeatureInterval(AbstractInterval, ABC):
     """This is a wrapper over :class:`~AbstractInterval` that adds functions shared across
     :class:`~biocantor.gene.transcript.TranscriptInterval`,
